@@ -309,3 +309,11 @@ Proof. vm_compute. split; reflexivity. Qed.
 
 Example run_clo_example : run_clo [4; 97; 98; 10; 99; 100; 10] = [1; 1].
 Proof. vm_compute. reflexivity. Qed.
+
+(* no Props file is assigned to this clause of C13; the closure check is here *)
+Print Assumptions clo_correct.
+Print Assumptions clo_correct_le.
+Print Assumptions clo_step.
+Print Assumptions clo_lf_on_line_it_ends.
+Print Assumptions bisect_left_insertion_point.
+Print Assumptions lf_free_suffix_spec.
